@@ -30,6 +30,8 @@ type FileGenOpts struct {
 	PhasedLong bool
 	// PhasedMin/PhasedSpan, if set, give the slice length PhasedMin + [0, PhasedSpan) instead.
 	PhasedMin, PhasedSpan int
+	// PhasedSlots bounds the number of slices that get the phased treatment (0: all of them).
+	PhasedSlots int
 	// OutOfDomain: also produce strings longer than the field and arrays longer than the profile length.
 	OutOfDomain bool
 	// LongStrings: one string in six is longer than its field (field length .. 600 bytes) and one
@@ -113,7 +115,16 @@ func SetField(rng *Rand, mv reflect.Value, pf *ref.PField, o *FileGenOpts) {
 		if rng.Chance(1, 4) {
 			sec = []uint64{1, 1<<32 - 2, 0x10000000, 1000000000}[rng.Intn(4)]
 		}
-		fv.Set(reflect.ValueOf(time.Unix(ref.FitEpochUnix+int64(sec), 0).UTC()))
+		t := time.Unix(ref.FitEpochUnix+int64(sec), 0).UTC()
+		// the same instant expressed in another location (time.Now() in a non-UTC process, a
+		// parsed RFC 3339 string with an offset ...): a UTC field stores the instant
+		switch rng.Intn(6) {
+		case 0:
+			t = t.In(time.FixedZone("GENUTC", (rng.Intn(29)-14)*3600+rng.Intn(4)*900))
+		case 1:
+			t = t.In(time.Local)
+		}
+		fv.Set(reflect.ValueOf(t))
 		return
 	case ref.KTimeLocal:
 		// wall-clock reading in range; zone offset within +-14 h
@@ -281,6 +292,7 @@ func GenFile(rng *Rand, o FileGenOpts) *fit.File {
 	if max == 0 {
 		max = 4
 	}
+	phasedDone := 0
 	for i, s := range specs {
 		fv := cv.Field(i)
 		if s.Single {
@@ -292,7 +304,8 @@ func GenFile(rng *Rand, o FileGenOpts) *fit.File {
 			continue
 		}
 		n := rng.Intn(max + 1)
-		if o.Phased && len(prof.ByMesg[s.Global]) >= 4 {
+		if o.Phased && len(prof.ByMesg[s.Global]) >= 4 && (o.PhasedSlots == 0 || phasedDone < o.PhasedSlots) {
+			phasedDone++
 			n = 600 + rng.Intn(500)
 			if o.PhasedLong {
 				n = 4500 + rng.Intn(4500)
@@ -496,4 +509,39 @@ func HasOverlong(c *Content) bool {
 		}
 	}
 	return false
+}
+
+// EditInPlace rewrites, in place, the first and the last message of every non-empty message
+// slice of f's container with freshly drawn field subsets (the slices and the message pointers
+// stay the same objects): what a caller does who corrects a File between two Encode calls. The
+// edit is a function of seed only, so two deep-equal Files stay deep-equal.
+func EditInPlace(f *fit.File, seed uint64) (edited int) {
+	if f == nil {
+		return 0
+	}
+	cont := Container(f, byte(f.FileId.Type))
+	if cont == nil {
+		return 0
+	}
+	cv := reflect.ValueOf(cont).Elem()
+	specs := Profile().Files[byte(f.FileId.Type)]
+	o := &FileGenOpts{Subset: 3}
+	for j := 0; j < cv.NumField() && j < len(specs); j++ {
+		fv := cv.Field(j)
+		if fv.Kind() != reflect.Slice || fv.Len() == 0 {
+			continue
+		}
+		for _, k := range []int{0, fv.Len() - 1} {
+			mp := fv.Index(k)
+			if mp.Kind() != reflect.Ptr || mp.IsNil() {
+				continue
+			}
+			rng := NewRand("EditInPlace", seed*1000+uint64(j)*2+uint64(k&1))
+			fresh := fit.VerifNewMesg(specs[j].Global)
+			FillMesg(rng, specs[j].Global, fresh, o)
+			mp.Elem().Set(fresh.Elem())
+			edited++
+		}
+	}
+	return edited
 }
